@@ -165,4 +165,28 @@ theorem runProof_inv (I : Interp) (hI : I.LeOrder) (A : List Tm) (cmds : List Cm
                 exact (hacc p (hmem p hp)).2 x hxp
             · exact fun t' ht' => hA t' (by simpa [assumptions] using ht')
 
+/-- the run with the `wellKinded` test accepts only what the plain run accepts, with the same result -/
+theorem runProof_raw (cmds : List Cmd) (acc res : List Seq) (h : runProof cmds acc = .ok res) :
+    runProofRaw cmds acc = .ok res := by
+  induction cmds generalizing acc with
+  | nil => simpa [runProof, runProofRaw] using h
+  | cons c rest ih =>
+    cases c with
+    | assume t => simp only [runProof] at h; simp only [runProofRaw]; exact ih _ h
+    | step r cl sizes prems =>
+      simp only [runProof] at h
+      simp only [runProofRaw]
+      split at h
+      · contradiction
+      · rename_i ps hps
+        split at h
+        · contradiction
+        · split at h
+          · contradiction
+          · rename_i s hs
+            first
+              | exact ih _ h
+              | (rw [hs]; exact ih _ h)
+              | (simp only [hs]; exact ih _ h)
+
 end Holpy.C18
